@@ -691,7 +691,7 @@ class State:
                                  {"kind": "Go!=S", "engine": "pack", "line": lines[i], "expected": exp, "impl": impl[i], "model": model[i]})
             # Go vs IM on the same line
             same = True
-            for k in ("P", "U", "S", "L", "V"):
+            for k in ("P", "U", "S", "L", "V", "F"):
                 if k in gi or k in mo:
                     g = gi.get(k, "?")
                     g = go_class(g) if g.startswith("err:") else g
@@ -965,7 +965,7 @@ class State:
         # integer and string directives against C printf (Python's % operator implements C's rules for these)
         specs = []
         for conv in "diuxXoc":
-            for flags in ["", "-", "0", "+", " ", "#", "-0", "+0", "- ", "0 "]:
+            for flags in ["", "-", "0", "+", " ", "#", "-0", "+0", "- ", "0 ", "#0", "#-", "+-", "#-0"]:
                 for width in ["", "1", "5", "12", "25"]:
                     for prec in ["", ".0", ".3", ".12"]:
                         specs.append("%" + flags + width + prec + conv)
@@ -975,7 +975,7 @@ class State:
             sp = rng.choice(specs)
             conv = sp[-1]
             if conv in "diuxXo":
-                v = rng.choice(ints)
+                v = rng.choice(ints) if rng.below(6) else rng.choice([0, 0, 1, -1, 7, 8, 255])
             elif conv == "c":
                 v = rng.choice([65, 97, 0, 10, 255, 48, 128])
             else:
@@ -1020,7 +1020,9 @@ class State:
             else:
                 sp, args = v
                 exp = c_printf(sp, args)
-                if exp is not None and i in self.c_ref:
+                if exp is None and i in self.c_ref:
+                    exp = self.c_ref[i]          # combinations the Python fallback cannot render (e.g. %#o)
+                elif exp is not None and i in self.c_ref:
                     # the platform's own printf is the reference where available (the Python rendering is a fallback
                     # and is cross-checked against it: a disagreement is a defect of this check, not of golua)
                     if self.c_ref[i] != exp:
@@ -1028,15 +1030,20 @@ class State:
                         ck.notes.append("c_printf(%r, %r) = %r but C printf gives %r; C used" % (sp, args, exp, self.c_ref[i]))
                     exp = self.c_ref[i]
                 got = go_class(gi.get("F", "?"))
-                if exp is None:
+                # Go vs IM (FmtModel.go_fmt) and S (FmtModel.c_fmt) vs the C library, for the integer directives
+                if "F" in mo:
+                    if got != mo["F"]:
+                        self.im_difference(lines[i], impl[i], model[i])
+                    if mo.get("D") == "1" and i in self.c_ref and mo.get("C") != val_tok(self.c_ref[i]):
+                        ck.count("reference:coq-c_fmt-vs-C-printf-disagree")
+                        self.im_difference(lines[i], "C printf: " + val_tok(self.c_ref[i]), model[i])
+                if exp is None or ("#" in sp and i not in self.c_ref):
                     continue
                 ck.count("fmt:" + sp[-1])
                 if got != "ok:" + val_tok(exp):
                     kid = None
-                    if sp[-1] == "o" and args and args[0] < 0:
-                        kid = "C17-format-o-negative"
-                    elif sp[-1] in "xXo" and "#" in sp and args and args[0] == 0:
-                        kid = None
+                    if mo.get("X") == "1" and mo.get("D") == "1":
+                        kid = "C17-format-sharp-flag" if "#" in sp else "C17-format-sign-prec0-zero"
                     if kid and self.known(kid):
                         ck.count("known:" + kid)
                     else:
@@ -1088,7 +1095,7 @@ def real_c_printf(ck, meta):
             continue
         sp, args = v
         conv = sp[-1]
-        if conv not in "diuxXoc" or sp == "%%" or c_printf(sp, args) is None:
+        if conv not in "diuxXoc" or sp == "%%" or c_undefined(sp):
             continue
         body = sp[1:-1].replace(" ", "_")
         if conv == "c":
@@ -1109,6 +1116,21 @@ def real_c_printf(ck, meta):
             res[i] = bytes.fromhex(o) if o != "-" else b""
     ck.count("reference:C-printf-cases", len(res))
     return res
+
+
+def c_undefined(sp):
+    """flag combinations for which ISO C leaves the behaviour of the conversion undefined"""
+    conv, body = sp[-1], sp[1:-1]
+    flags = re.match(r"^[-+ #0]*", body).group(0)
+    if conv in "di":
+        return "#" in flags
+    if conv == "u":
+        return any(f in flags for f in "#+ ")
+    if conv in "xXo":
+        return any(f in flags for f in "+ ")
+    if conv == "c":
+        return any(f in flags for f in "#+ 0") or "." in body
+    return True
 
 
 def c_printf(sp, args):
